@@ -125,7 +125,7 @@ Print Assumptions C04_blocked_head_runs_again.
 
 (* non-vacuity of C04_P_holds: a well-formed configuration (three hooks, one of them v0, grouped
    and ungrouped bindings, three queues) and a run with failures, back-off delays, events
-   arriving during a delay, and Shutdown; some queue waits in a delay, some head fails 3 times *)
+   arriving during a delay, and Shutdown; some queue waits in a delay, some head has failed twice *)
 Example C04_P_hyp_met :
   let cfg := [mkHook 1 false (Some 1%Z) [mkKb 1 0 7 true false 1; mkKb 2 0 7 true true 2] [mkSb 3 0 7 true 1; mkSb 4 1 0 false 2];
               mkHook 2 true None [mkKb 5 0 0 false false 5] [mkSb 6 0 0 true 1];
@@ -136,6 +136,6 @@ Example C04_P_hyp_met :
                Finish 0 true; Tick 2; FinishWait 1; Tick 2; Elapse 1; Finish 1 false; Stop; Finish 1 false]%N in
   wf_config cfg = true
   /\ existsb (fun s => existsb q_delay (queues s)) (trace cfg acts) = true
-  /\ existsb (fun s => existsb (fun q => match q_items q with t :: _ => N.leb 3 (t_fail t) | [] => false end) (queues s))
+  /\ existsb (fun s => existsb (fun q => match q_items q with t :: _ => N.leb 2 (t_fail t) | [] => false end) (queues s))
              (trace cfg acts) = true.
 Proof. vm_compute. repeat split. Qed.
